@@ -71,12 +71,12 @@ Variable p : pspec.
 Variable lay : layout.
 Variable so : bool.
 Variable g : cgraph.
-Hypothesis SOK : spec_okb p so = true.
+Hypothesis WFH : spec_wf p so.
 Hypothesis DOK : dgraph_ok p lay so = true.
 Hypothesis SAME : same_graph p lay so g = true.
 Hypothesis GOK : graph_ok g = true.
 
-Let WF := spec_okb_wf p so SOK.
+Let WF := WFH.
 Let e := enc p lay.
 
 Lemma keys_nodes : g_keys g = map e (nodes p so).
@@ -142,16 +142,24 @@ Proof. intros [al [TT RR]].
     assert (HL : In (x, y, true) (mk false (d_eq p so) ++ mk true (d_wc p so))) by (apply in_or_app; right; apply In_mk; auto).
     pose proof (LK x y true HL) as Q. simpl in Q. fold e. rewrite Q, bcompl_invol. reflexivity. Qed.
 
-Theorem gsat_iff_doc_sat : (exists a, gsat g a) <-> doc_sat p so.
+Theorem gsat_iff_doc_sat_wf : (exists a, gsat g a) <-> doc_sat p so.
 Proof. split; [apply sat_to_doc | apply doc_to_sat]. Qed.
 End Sat.
 
+Theorem gsat_iff_doc_sat p lay so g : spec_okb p so = true -> dgraph_ok p lay so = true -> same_graph p lay so g = true -> graph_ok g = true ->
+  ((exists a, gsat g a) <-> doc_sat p so).
+Proof. intros SOK. apply gsat_iff_doc_sat_wf. apply spec_okb_wf, SOK. Qed.
+
 (* constraint generation reports over-constraint exactly when the document is unsatisfiable (either layout) *)
+Theorem over_iff_document_unsat_wf p so lay g : seed p so = OK (lay, g) -> graph_ok g = true ->
+  spec_wf p so -> dgraph_ok p lay so = true -> same_graph p lay so g = true ->
+  (get_constraints p so = DOver <-> ~ doc_sat p so).
+Proof. intros SEED GOK WFH DOK SAME. rewrite (over_iff_unsat p so lay g SEED GOK).
+  rewrite (gsat_iff_doc_sat_wf p lay so g WFH DOK SAME GOK). tauto. Qed.
 Theorem over_iff_document_unsat p so lay g : seed p so = OK (lay, g) -> graph_ok g = true ->
   spec_okb p so = true -> dgraph_ok p lay so = true -> same_graph p lay so g = true ->
   (get_constraints p so = DOver <-> ~ doc_sat p so).
-Proof. intros SEED GOK SOK DOK SAME. rewrite (over_iff_unsat p so lay g SEED GOK).
-  rewrite (gsat_iff_doc_sat p lay so g SOK DOK SAME GOK). tauto. Qed.
+Proof. intros SEED GOK SOK. apply over_iff_document_unsat_wf; [exact SEED | exact GOK | apply spec_okb_wf, SOK]. Qed.
 
 (* the hypotheses are met, in both layouts, by a concrete document: sequences, a super-sequence with a
    reversed item, two strands pairing over their whole length, a second structure in which one
